@@ -363,7 +363,7 @@ def runReal (op impl : String) : Ans :=
   | m :: rest =>
     match (m.drop 2).toString.toNat?, (rest.filter (· != "")).mapM parseEv with
     | some adv, some evs =>
-      if evs.any (fun e => match e with | .B .. => true | .W => true | .T _ => true | .H _ _ (.conn _) => true | _ => false) then
+      if evs.any (fun e => match e with | .B .. => true | .P _ => true | .W => true | .T _ => true | .H _ _ (.conn _) => true | _ => false) then
         { model := "bad-op", verdict := "skip" }
       else
         let (c, outs, over) := realRun { adv := adv } evs []
